@@ -35,7 +35,7 @@ FLOORS = {"quick": {"decisions": 40000, "window_checks": 15000, "skipped_empty_c
                        "drr_multi_round": 6000, "drr_unaffordable_heads": 20000, "drr_credit_forgotten": 20000,
                        "drr_range_checks": 600000, "fairness_periods": 6000, "kind_DRR": 3000, "kind_RR": 2000,
                        "kind_WRR": 2000, "idle_restarts": 40000}}
-KEYS = tuple(FLOORS["quick"].keys()) + ("back_to_back", "idle_then_arrival", "arrival_at_tx_end",
+KEYS = tuple(FLOORS["quick"].keys()) + ("rr_duplicate_slot_decisions",) + ("back_to_back", "idle_then_arrival", "arrival_at_tx_end",
                                          "arrival_at_tx_end_after_departure", "drr_fork_residue")
 # floors for the situations added with the later rounds of seeded changes (evidence that they were really exercised)
 FLOORS["quick"].update({'echoed_arrivals_inside_next_hop_put': 6000})
@@ -68,6 +68,16 @@ def gen_case(rng, i):
     # to C13/C14: the visit / credit automata of this check would need the pick instant, which the boundary cannot see)
     for a in case["arrivals"]:
         a.pop("late", None)
+    if kind == "RR" and rng.random() < 0.3 and len(case["cfg"]["table"]) >= 2:
+        t = case["cfg"]["table"]                 # a flow listed more than once in the round
+        for _ in range(rng.randint(1, 2)):
+            t.insert(rng.randrange(len(t) + 1), rng.choice(t))
+    if kind == "DRR" and rng.random() < 0.08:
+        # weight ratios whose quantum 1500*w/min(w) is exact only in that order of operations; packets that use a visit's credit exactly
+        cls = case["cfg"]["classes"]
+        case["cfg"]["table"] = {c: (10 if k == 0 else 23 if k == 1 else 5) for k, c in enumerate(cls)}
+        for a in case["arrivals"]:
+            a["size"] = rng.choice([1450, 2000])
     return case
 
 
@@ -169,7 +179,7 @@ def drr_rule(run, stats, bad):
     minw = min(w.values())
     Q = {c: 1500 * w[c] / minw for c in order}
     for c in order:
-        if not vnet.close(sched.quantum[c], Q[c]):
+        if sched.quantum[c] != Q[c]:                     # (exact: the statement gives the formula)
             bad("drr-quantum-wrong", "the quantum is not 1500*weight/min(weight)", {"class": c, "quantum": sched.quantum[c], "expected": Q[c]})
             return
     Lmax = max(a[5] for a in run.arr) if run.arr else 0
@@ -359,6 +369,52 @@ def fairness_rule(run, stats, bad):
                         lo = hi = None
 
 
+def rr_slots_rule(run, stats, bad):
+    """RR whose round lists a flow more than once ([0, 1, 0, 2]): the round is a cycle of SLOTS in declaration order, one
+    packet per slot visited, a slot is passed over only when its flow has nothing waiting.  Candidate-set automaton
+    over the slot served last; a flow counts as certainly backlogged if it already was right after the previous decision."""
+    slots = list(run.tbl)
+    n = len(slots)
+    waiting = {f: 0 for f in set(slots)}
+    ev = timeline(run)
+    P = None                 # possible positions of the slot served last (None = free: the system was empty)
+    wsnap = None
+    total_wait_at_out = None
+    for _, k, e in ev:
+        f = e[4]
+        if k == "in":
+            waiting[f] += 1
+        elif k == "out":
+            total_wait_at_out = sum(waiting.values())
+        else:
+            if P is None or total_wait_at_out == 0:
+                stats["idle_restarts"] += 1
+                newP = {q for q in range(n) if slots[q] == f}
+            else:
+                stats["window_checks"] += 1
+                stats["rr_duplicate_slot_decisions"] += 1
+                newP = set()
+                for p0 in P:
+                    q = (p0 + 1) % n
+                    steps = 0
+                    while steps < n:
+                        if slots[q] == f:
+                            newP.add(q)
+                        if wsnap[slots[q]] > 0:
+                            break               # this slot's flow was certainly backlogged: the scan cannot pass it
+                        stats["skipped_empty_classes"] += 1
+                        q = (q + 1) % n
+                        steps += 1
+                if not newP:
+                    bad("backlogged-class-skipped[RR]", "a slot of the round whose flow had packets waiting was passed over (cyclic visit in declaration order, one packet per slot)",
+                        {"round": slots, "served": f, "after_slot_candidates": sorted(P), "waiting_after_previous_decision": {str(x): v for x, v in wsnap.items() if v}})
+                    return
+            P = newP
+            waiting[f] -= 1
+            wsnap = dict(waiting)
+            total_wait_at_out = None
+
+
 def one_case(ctx, case):
     import collections
     stats = collections.Counter({k: 0 for k in KEYS})
@@ -369,7 +425,10 @@ def one_case(ctx, case):
     if not run.viol:
         c12.time_rules(run, stats, run.bad)
     if not run.viol:
-        window_and_allowance(run, stats, run.bad)
+        if cfg["kind"] == "RR" and len(set(run.tbl)) < len(list(run.tbl)):
+            rr_slots_rule(run, stats, run.bad)
+        else:
+            window_and_allowance(run, stats, run.bad)
     if not run.viol and cfg["kind"] == "DRR":
         drr_rule(run, stats, run.bad)
         if not run.viol:
